@@ -205,16 +205,36 @@ OPERAND_TYPES = {"STRING", "INT", "FLOAT", "RTIME", "TRUE", "FALSE", "PERCENT", 
 
 
 def do_comments(ctx, model, sources, st):
-    """the decorated stream of the real parser (Leading comments with PrefixedLineFeed / PreviousEmptyLines, Nest,
-    PreviousEmptyLines of every token that becomes curToken) must be the one of Model/ParseComments.v on the raw
-    token stream of the real lexer; then the census of the real tree: every comment of the decorated stream in
-    exactly one Leading / Infix / Trailing list of the tree"""
+    """sources: (label, source, mode, base source or None).
+    C02 (the tree does not depend on white space / comment placement): a source and the same source with comments and
+    line feeds put into its white space must give the same reply of `parsetree` (same significant tokens, same tree or
+    the same error on the same token) - VIOLATION otherwise.
+    Correspondence of Model/ParseComments.v: the decorated stream of the real parser (token, Nest, PreviousEmptyLines and
+    the Leading comments with PrefixedLineFeed / PreviousEmptyLines of every token that becomes curToken) must be the one
+    the extracted model computes from the raw token stream of the real lexer - VIOLATION otherwise (the model of ReadPeek
+    no longer describes the code).
+    OBSERVATION only (comment attachment is not part of C02's statement): the census of the real tree - how many comments
+    of the decorated stream are in exactly one / no / several Leading / Infix / Trailing lists, per site."""
+    ptree = [os.path.join(V.BUILD, "implrun"), "parsetree"]
+    pairs = [(label, s, mode, base) for label, s, mode, base in sources if base is not None]
+    reps = V.run_batch(ptree, ["src %s %s" % (m, x.hex()) for _, s, m, base in pairs for x in (base, s)], hang_s=10)
+    for i, (label, s, mode, base) in enumerate(pairs):
+        r0, r1 = reps[2 * i], reps[2 * i + 1]
+        st["c_pairs"] += 1
+        if r0 is None or r1 is None or strip_bits(r0) != strip_bits(r1) or r0 != r1:
+            ctx.violation("comments / line feeds put into the white space of a source change what the parser returns (%s)" % label,
+                          {"mode": mode, "source": base.decode("utf-8", "replace")[:800], "source_hex": base.hex()[:4000],
+                           "commented_source": s.decode("utf-8", "replace")[:1500], "commented_source_hex": s.hex()[:6000],
+                           "plain": (r0 or "").split(" | ")[-1][:1500], "commented": (r1 or "").split(" | ")[-1][:1500]})
+        else:
+            st["c_pairs_same"] += 1
     impl = [os.path.join(V.BUILD, "implrun"), "parsecomments"]
-    irep = V.run_batch(impl, [s.hex() for _, s in sources], hang_s=10)
+    sources = [x for x in sources if x[2] != "expr"]        # the decorated stream is read from whole programs / snippets
+    irep = V.run_batch(impl, [s.hex() for _, s, _, _ in sources], hang_s=10)
     keep, mreq = [], []
-    for (label, s), rep in zip(sources, irep):
+    for (label, s, _, _), rep in zip(sources, irep):
         if rep is None or rep.count(" | ") != 2 or rep.startswith(("hang", "died", "panic", "bad", "skipped")):
-            ctx.violation("the parser %s while its comment placement is read (%s)" % ((rep or "gives no reply").split(" ")[0], label),
+            ctx.violation("the parser %s while its decorated token stream is read (%s)" % ((rep or "gives no reply").split(" ")[0], label),
                           {"source_hex": s.hex()[:4000], "reply": (rep or "")[:400]}, {"kind": "impl-" + (rep or "none").split(" ")[0]})
             continue
         raw, dec, tree = rep.split(" | ")
@@ -224,40 +244,30 @@ def do_comments(ctx, model, sources, st):
     for (label, s, raw, dec, tree), mr in zip(keep, mrep):
         st["c_src"] += 1
         if dec != mr:
-            ctx.violation("comment attachment / Nest / PreviousEmptyLines of the token stream differ between Parser.ReadPeek and "
+            ctx.violation("the decorated token stream (token, Nest, PreviousEmptyLines, Leading comments) differs between Parser.ReadPeek and "
                           "Model/ParseComments.v on %s" % label,
                           {"source": s.decode("utf-8", "replace")[:1500], "source_hex": s.hex()[:4000], "raw_tokens": raw[:3000],
                            "impl": dec[:3000], "model": (mr or "")[:3000]})
             continue
         st["c_agree"] += 1
+        # ---- observations from here on
         rt = [t.split(":", 1)[0] for t in raw.split(";")]
         dl = [d.split(":") for d in dec.split(";")]
-        ncom = sum(1 for d in dl for c in d[4].split(",") if c)
-        st["c_comments"] += ncom
+        st["c_comments"] += sum(1 for d in dl for c in d[4].split(",") if c)
         st["c_maxnest"] = max(st["c_maxnest"], max(int(d[2]) for d in dl))
         st["c_pel"] += sum(1 for d in dl if d[3] != "0") + sum(1 for d in dl for c in d[4].split(",") if c and c.split(".")[2] != "0")
-        # source-level reading of "exactly once": the attached comments are all COMMENT tokens of the raw stream
         allc = [str(i) for i, t in enumerate(rt) if t == "COMMENT"]
         att = [c.split(".")[0] for d in dl for c in d[4].split(",") if c]
         if att != allc:
-            st["c_stream_lost"] += 1
-            ctx.violation("a comment token of the source is attached to no token by Parser.ReadPeek (%s)" % label,
-                          {"source": s.decode("utf-8", "replace")[:600], "source_hex": s.hex()[:4000],
-                           "lost": [x for x in allc if x not in att][:20]},
-                          {"kind": "comment-not-attached", "inside": "pragma" if "PRAGMA" in rt else "other"})
+            st["c_stream_lost"] += len([x for x in allc if x not in att])
         if tree == "-":
             continue
         st["c_trees"] += 1
-        items = [x for x in tree.split(" ", 1)[1].split(",") if x]
         where = {}
-        for x in items:
+        for x in [x for x in tree.split(" ", 1)[1].split(",") if x]:
             cid, hold = x[1:].split("@")
             where.setdefault(cid, []).append((x[0], hold))
-        for cid in where:
-            if cid not in att:
-                ctx.violation("the tree carries a comment that Parser.ReadPeek attached to no token (%s)" % label,
-                              {"source": s.decode("utf-8", "replace")[:600], "source_hex": s.hex()[:4000], "comment_index": cid})
-        st["c_in_tree"] += len(where)
+        st["c_alien"] += sum(1 for cid in where if cid not in att)
         for i, d in enumerate(dl):
             for c in d[4].split(","):
                 if not c:
@@ -269,18 +279,12 @@ def do_comments(ctx, model, sources, st):
                     st["c_dropped"] += 1
                     key = "%s after %s" % (d[0], after)
                     st["c_drop_sites"][key] = st["c_drop_sites"].get(key, 0) + 1
-                    ctx.violation("a comment of the source is in no Leading / Infix / Trailing list of the tree (%s): comment before %s, after %s"
-                                  % (label, d[0], prev),
-                                  {"source": s.decode("utf-8", "replace")[:800], "source_hex": s.hex()[:4000],
-                                   "comment": bytes.fromhex(raw.split(";")[int(cid)].split(":")[1]).decode("utf-8", "replace")},
-                                  {"kind": "comment-dropped", "holder": d[0], "after": after})
                 elif len(where[cid]) > 1:
                     st["c_dup"] += 1
-                    hs = sorted(set(f + "@" + (rt[int(h)] if h.isdigit() else h) for f, h in where[cid]))
-                    ctx.violation("a comment of the source is in %d lists of the tree (%s): %s" % (len(where[cid]), label, where[cid]),
-                                  {"source": s.decode("utf-8", "replace")[:800], "source_hex": s.hex()[:4000],
-                                   "comment": bytes.fromhex(raw.split(";")[int(cid)].split(":")[1]).decode("utf-8", "replace")},
-                                  {"kind": "comment-duplicated", "lists": len(where[cid]), "where": ",".join(hs)})
+                    key = ",".join(sorted(set(f + "@" + (rt[int(h)] if h.isdigit() else h) for f, h in where[cid])))
+                    st["c_dup_sites"][key] = st["c_dup_sites"].get(key, 0) + 1
+                else:
+                    st["c_once"] += 1
 
 
 def run(ctx):
@@ -471,14 +475,18 @@ def run(ctx):
     gen_c = [c for c in cases if c[0] != "expr" and c[2].startswith(("gen-", "nested-"))]
     n_c = 6000 if thorough else 800
     for c in (rng.sample(gen_c, n_c) if len(gen_c) > n_c else gen_c):     # every generator family, commented
-        csrc.append((c[2] + "+comments", commentize(rng, c[1].decode("utf-8", "replace"), rng.choice([0.1, 0.25, 0.5])).encode()))
+        csrc.append((c[2] + "+comments", commentize(rng, c[1].decode("utf-8", "replace"), rng.choice([0.1, 0.25, 0.5])).encode(), c[0], c[1]))
     for c in cases:
         if c[0] != "expr" and not c[2].startswith(("gen-", "nested-")):
-            csrc.append((c[2], c[1]))
-            if c[2] == "directed":
-                csrc.append((c[2] + "+comments", commentize(rng, c[1].decode("utf-8", "replace"), 0.5).encode()))
+            csrc.append((c[2], c[1], c[0], None))
+            if c[2] == "directed" or c[2].startswith("corpus/"):
+                csrc.append((c[2] + "+comments", commentize(rng, c[1].decode("utf-8", "replace"), 0.5).encode(), c[0], c[1]))
     for src in COMMENT_DIRECTED:
-        csrc.append(("comment-directed", src.encode()))
+        csrc.append(("comment-directed", src.encode(), "auto", None))
+    # expressions too: comments between the tokens of an expression must not change its tree
+    ex_c = [c for c in cases if c[0] == "expr" and c[2].startswith("gen-expr")]
+    for c in rng.sample(ex_c, min(len(ex_c), 20000 if thorough else 1000)):
+        csrc.append((c[2] + "+comments", commentize(rng, c[1].decode("utf-8", "replace"), rng.choice([0.25, 0.5])).encode(), c[0], c[1]))
     n_cases = len(cases)
     n_intent = sum(1 for c in cases if c[4])
     n_grammar = sum(1 for c in cases if c[5] and not c[4])
@@ -546,8 +554,8 @@ def run(ctx):
             done += k
 
     # ------------------------------------------------------------- phase C: comment attachment
-    st.update({"c_src": 0, "c_agree": 0, "c_comments": 0, "c_maxnest": 0, "c_pel": 0, "c_trees": 0, "c_in_tree": 0,
-               "c_dropped": 0, "c_dup": 0, "c_stream_lost": 0, "c_drop_sites": {}})
+    st.update({"c_src": 0, "c_agree": 0, "c_comments": 0, "c_maxnest": 0, "c_pel": 0, "c_trees": 0, "c_once": 0, "c_alien": 0,
+               "c_dropped": 0, "c_dup": 0, "c_stream_lost": 0, "c_drop_sites": {}, "c_dup_sites": {}, "c_pairs": 0, "c_pairs_same": 0})
     for i in range(0, len(csrc), 5000):
         do_comments(ctx, model, csrc[i:i + 5000], st)
         if len(ctx.violations) > 50:
@@ -571,12 +579,15 @@ def run(ctx):
         "seconds_in_go_parser": round(st["impl_s"], 1), "seconds_in_extracted_model": round(st["model_s"], 1),
         "line_end_literal_cases": n_le, "operator_pair_cases": n_pairs, "operator_pairs_exhaustive": True,
         "expression_depth_histogram": dict(sorted(depth_hist.items())),
-        "comment_sources": st["c_src"], "comment_streams_agree": st["c_agree"], "comments_in_those_sources": st["c_comments"],
-        "comment_max_nest": st["c_maxnest"], "comment_nonzero_empty_line_counts": st["c_pel"],
-        "comment_trees_walked": st["c_trees"], "comments_found_once_in_tree": st["c_in_tree"] - st["c_dup"],
-        "comments_dropped_by_tree(known)": st["c_dropped"], "comments_duplicated_in_tree(known)": st["c_dup"],
-        "comment_drop_sites": dict(sorted(st["c_drop_sites"].items())),
-        "comments_lost_before_the_tree(known: pragma)": st["c_stream_lost"],
+        "commented_vs_plain_pairs": st["c_pairs"], "commented_vs_plain_same_result": st["c_pairs_same"],
+        "decorated_stream_sources": st["c_src"], "decorated_streams_agree_with_model": st["c_agree"], "comments_in_those_sources": st["c_comments"],
+        "decorated_max_nest": st["c_maxnest"], "decorated_nonzero_empty_line_counts": st["c_pel"],
+        "observation_comment_census(not part of C02)": {
+            "trees_walked": st["c_trees"], "comments_in_exactly_one_list": st["c_once"], "comments_in_no_list": st["c_dropped"],
+            "comments_in_several_lists": st["c_dup"], "comments_in_tree_but_not_in_stream": st["c_alien"],
+            "comment_tokens_discarded_by_ReadPeek(pragma)": st["c_stream_lost"],
+            "no_list_sites(token before which the comment stood, after what)": dict(sorted(st["c_drop_sites"].items())),
+            "several_lists_sites": dict(sorted(st["c_dup_sites"].items()))},
         "malformed_streams": st["n_mal"], "malformed_agree": st["b_agree"], "malformed_outcomes": b_out,
         "mutation_kinds": mk, "error_classes": dict(sorted(err_kinds.items())),
         "node_kinds": dict(sorted(node_kinds.items(), key=lambda kv: -kv[1])[:60]),
